@@ -22,7 +22,7 @@ GROUP = dict(
     canary='    axiom_string_from(); broadcast use axiom_ascii_to_lower;',
     units=[
         dict(id='U-lower.lowercase_in_place', file='purl/src/lib.rs', fn='lowercase_in_place',
-             properties=['C08', 'C10', 'C12'],
+             properties=['C08', 'C10', 'C12', 'C01', 'C02'],
              ret=None,
              contract='    ensures final(s)@ == lower_seq(old(s)@)',
              hoist=[('R6', r'enum State \{[^}]*\}', r'pub \g<0>')],
@@ -46,7 +46,7 @@ GROUP = dict(
     }''')],
              ),
         dict(id='U-lower.copy_as_lowercase', file='purl/src/lib.rs', fn='copy_as_lowercase',
-             properties=['C12', 'C10'],
+             properties=['C12', 'C10', 'C05', 'C01', 'C02', 'C04'],
              contract='    ensures r@ == lower_seq(s@)',
              begin='    proof { axiom_string_from(); }',
              hoist=[('R6', r'enum State \{[^}]*\}', r'pub enum State2 {Lower, MixedAscii, MixedUnicode}')],
